@@ -67,3 +67,43 @@ func WithTimeout(parent Context, d time.Duration) (Context, CancelFunc) {
 	}
 	return wrap(rc.WithTimeout(parent, d))
 }
+
+// AfterFunc is context.AfterFunc. Under the scheduler the function runs on a scheduler thread that
+// becomes enabled when ctx is done or stop is called (no real goroutine appears out of the scheduler's
+// sight); stop reports whether it prevented f from running, like the real one.
+func AfterFunc(ctx Context, f func()) (stop func() bool) {
+	if rt.S == nil {
+		return rc.AfterFunc(ctx, f)
+	}
+	started, stopped := false, false
+	done := ctx.Done()
+	rt.GoBlocked("context.AfterFunc", func() bool {
+		if stopped {
+			return true
+		}
+		select {
+		case <-done:
+			return true
+		default:
+			return false
+		}
+	}, func() {
+		if stopped {
+			return
+		}
+		started = true
+		rt.AcquireGlobal()
+		f()
+	})
+	return func() bool {
+		rt.Point("AfterFunc stop()")
+		if started || stopped {
+			return false
+		}
+		stopped = true
+		return true
+	}
+}
+
+// WithoutCancel is context.WithoutCancel.
+func WithoutCancel(parent Context) Context { return rc.WithoutCancel(parent) }
